@@ -354,3 +354,107 @@ CHECKS = {
     "C13:mpv": chk_mpv,
     "C13:grid": chk_grid,
 }
+
+
+# --------------------------------------------------------------------------- replay of a verifier counter-model
+
+
+def _num(v):
+    """z3 model value (string) -> float"""
+    from fractions import Fraction
+
+    v = str(v).strip().replace("?", "")
+    try:
+        return float(Fraction(v))
+    except Exception:
+        return float(v)
+
+
+def _increasing(xs):
+    """the strictly increasing prefix (a counter-model of the ground VC leaves far-away elements unconstrained)"""
+    out = []
+    for x in xs:
+        if out and not x > out[-1]:
+            break
+        out.append(x)
+    return tuple(out)
+
+
+def replay_model(m):
+    """rebuild the configuration and query of a counter-model and run the same oracle as the bounded check on it"""
+    K = str(m.get("class", "")).strip('"')
+    lo = _num(m["q.low"]) if "q.low" in m else None
+    hi = _num(m["q.high"]) if "q.high" in m else None
+    if K == "Bin":
+        num = int(_num(m["num"]))
+        if num > 100000:
+            return None
+        cfg = (num, _num(m["low"]), _num(m["high"]))
+    elif K == "SparselyBin":
+        cfg = (_num(m["binWidth"]), _num(m["origin"]))
+    elif K in ("CentrallyBin", "IrregularlyBin") and "w.k" in m:
+        # a window of centres / thresholds around the bin the query falls in
+        n, k = int(_num(m["n"])), int(_num(m["w.k"]))
+        pre = "w.c" if K == "CentrallyBin" else "w.e"
+        lo_i = 0 if K == "CentrallyBin" else 1
+        vals = [_num(m[f"{pre}{d:+d}"]) for d in (-1, 0, 1, 2) if lo_i <= k + d < n and f"{pre}{d:+d}" in m]
+        cfg = _increasing(tuple(vals))
+        if len(cfg) < (2 if K == "CentrallyBin" else 1):
+            return None
+    elif K == "CentrallyBin":
+        n = min(int(_num(m["n"])), 6)
+        cfg = _increasing(tuple(_num(m[f"c{i}"]) for i in range(n)))
+        if len(cfg) < 2:
+            return None
+    elif K == "IrregularlyBin":
+        n = min(int(_num(m["n"])), 6)
+        cfg = _increasing(tuple(_num(m[f"e{i}"]) for i in range(1, n) if f"e{i}" in m))
+    else:
+        return None
+    try:
+        mk, grid, probes = _config(K, cfg)
+        h = mk()
+    except Exception as e:
+        return None  # the rounded configuration is not constructible: nothing to replay
+    extra = [v for v in (lo, hi, _num(m["q.x"]) if "q.x" in m else None) if v is not None and math.isfinite(v)]
+    if K == "SparselyBin" and int(_num(m.get("filled", 1))) > 0:
+        w, o = cfg
+        for k in (int(_num(m["minBin"])), int(_num(m["maxBin"]))):
+            if abs(k) < 10**9:
+                h.fill(o + w * (k + 0.5))
+    for x in list(probes) + extra:
+        if K != "SparselyBin" or not extra or min(extra) - 5 * cfg[0] <= x <= max(extra) + 5 * cfg[0]:
+            h.fill(x)
+    tagc = f"{K}{cfg}"
+    try:
+        nb, ent, edg, cen = h.num_bins(), h.bin_entries(), h.bin_edges(), h.bin_centers()
+    except Exception as e:
+        return f"{tagc}: full-range accessor raised {e!r}"
+    SCALE[0] = max([abs(float(e)) for e in edg if math.isfinite(float(e))] or [1.0])
+    msg = consistent(tagc + " full range", nb, ent, edg, cen)
+    if msg:
+        return msg
+    if K == "SparselyBin":
+        base, content = h.minBin, (lambda i: h.bins[i].entries if i in h.bins else 0.0)
+    elif K == "Bin":
+        base, content = 0, (lambda i: h.values[i].entries)
+    else:
+        base, content = 0, (lambda i: h.bins[i][1].entries)
+    for x in extra:
+        msg = _probe(K, h, tagc, x, base, nb, edg, content)
+        if msg:
+            return msg
+    if lo is not None or hi is not None:
+        # a one-sided query is replayed with the open side at the end of the binned domain
+        if K == "SparselyBin":
+            if h.low is None:
+                return None
+            a = lo if lo is not None else h.low
+            b = hi if hi is not None else h.high
+        else:
+            a = lo if lo is not None else -1e300
+            b = hi if hi is not None else 1e300
+        if not a < b:
+            return None
+        return _subrange(K, h, tagc, a, b, base, nb, ent, edg)
+    return None
